@@ -398,14 +398,22 @@ def run(ctx):
             pc = json.load(open(pp))
             pc["id"] = "pin-" + e["id"]
             pinned.append(pc)
+    if ctx.replay:
+        # ./check C04 --replay <dir>: re-run exactly the case stored with a violation
+        cp = os.path.join(ctx.replay, "case.json") if os.path.isdir(ctx.replay) else ctx.replay
+        rc = json.load(open(cp))
+        rc["id"] = "replay"
+        cases, pinned_ok = [rc], False
+    else:
+        pinned_ok = True
     only = os.environ.get("C04_ONLY")  # development aid: "role/form,role/*,*/form"
     if only:
         pats = [x.split("/") for x in only.split(",")]
         cases = [c for c in cases if any(a in ("*", c["role"]) and b in ("*", c["form"]) for a, b in pats)]
-    if not thorough:
+    if not thorough and not ctx.replay:
         keep = pick_quick(cases, rnd, int(os.environ.get("C04_QUICK_CASES", "3000")))
         cases = [cases[i] for i in keep]
-    if not os.environ.get("C04_ONLY"):
+    if pinned_ok and not os.environ.get("C04_ONLY"):
         have = {json.dumps({k: v for k, v in c.items() if k != "id"}, sort_keys=True) for c in cases}
         cases += [pc for pc in pinned if json.dumps({k: v for k, v in pc.items() if k != "id"}, sort_keys=True) not in have]
     by_form = {}
@@ -419,7 +427,7 @@ def run(ctx):
     # split large groups so that the 16 cores stay busy
     jobs = []
     for (role, form), cs in sorted(groups.items()):
-        CH = 150
+        CH = 250
         for j in range(0, len(cs), CH):
             jobs.append((role, form, j // CH, cs[j:j + CH]))
 
@@ -502,7 +510,7 @@ def run(ctx):
     nyes = sum(st[0] for _, st in res)
     nno = sum(st[1] for _, st in res)
     nfree = sum(st[2] for _, st in res)
-    if nyes == 0 or nno == 0:
+    if (nyes == 0 or nno == 0) and not ctx.replay:
         raise Inconclusive("vacuous: %d must-identify and %d must-not-identify verdicts" % (nyes, nno))
 
     if os.environ.get("VERIF_KEEP"):
@@ -530,8 +538,8 @@ def run(ctx):
     MAXV = 25  # one VIOLATION (with replay material) per disagreeing cell, at most MAXV of them
     for nv, (cell, fls) in enumerate(sorted(unknown.items(), key=lambda kv: (-len(kv[1]), kv[0]))):
         if nv >= MAXV:
-            print("  ... and %d more disagreeing cells (not listed; %d (case, site) pairs)" % (
-                len(unknown) - MAXV, sum(len(v) for k, v in unknown.items()) ))
+            print("  ... and %d more disagreeing cells (not listed; %d disagreeing (case, site) pairs in all cells together)" % (
+                len(unknown) - MAXV, sum(len(v) for v in unknown.values())))
             break
         fl = fls[0]
         c = case_by_id[fl["id"]]
